@@ -2,6 +2,8 @@ use crate::common::{machinery_failure, Run};
 use serde_json::Value;
 
 pub mod c20;
+pub mod c21;
+pub mod c22;
 pub mod c23;
 pub mod c26;
 pub mod c27;
@@ -10,6 +12,8 @@ pub mod c40;
 pub fn run(id: &str, run: &mut Run) {
     match id {
         "C20" => c20::run(run),
+        "C21" => c21::run(run),
+        "C22" => c22::run(run),
         "C23" => c23::run(run),
         "C26" => c26::run(run),
         "C27" => c27::run(run),
@@ -21,6 +25,8 @@ pub fn run(id: &str, run: &mut Run) {
 pub fn replay(id: &str, case: &Value, run: &mut Run) {
     match id {
         "C20" => c20::replay(case, run),
+        "C21" => c21::replay(case, run),
+        "C22" => c22::replay(case, run),
         "C23" => c23::replay(case, run),
         "C26" => c26::replay(case, run),
         "C27" => c27::replay(case, run),
